@@ -142,7 +142,7 @@ func (g *gen) program() *Program {
 	for i, t := range g.titles {
 		n := &Node{Title: t}
 		if g.tp.Chance(g.cfg.TrackingPct, "tracking") {
-			n.Tracking = []string{"never", "always"}[g.tp.Int(0, 1, "trackkind")]
+			n.Tracking = []string{"never", "always", "never", "always", "default", "Always", "yes", "sometimes"}[g.tp.Int(0, 7, "trackkind")] // only "never" switches counting off
 		}
 		if g.tp.Chance(15, "extrahdr") {
 			n.Extra = append(n.Extra, [2]string{"tags", "foo bar"})
@@ -1063,7 +1063,7 @@ func (g *gen) hubProgram() *Program {
 	for i := 1; i <= k; i++ {
 		n := &Node{Title: fmt.Sprintf("R%d", i)}
 		if g.tp.Chance(g.cfg.TrackingPct, "tracking") {
-			n.Tracking = []string{"never", "always"}[g.tp.Int(0, 1, "trackkind")]
+			n.Tracking = []string{"never", "always", "never", "always", "default", "Always", "yes", "sometimes"}[g.tp.Int(0, 7, "trackkind")] // only "never" switches counting off
 		}
 		n.Body = append(n.Body, g.line())
 		n.Body = append(n.Body, g.body(1)...)
